@@ -881,3 +881,12 @@ MUTANTS += [
     B("c18-sorter-chain-for-a-single-value", ["C18"], UT,
       "    if n > 1:\n        constraints.append(z3.And([a[i] < a[i + 1] for i in range(n - 1)]))", "    if n > 0:\n        constraints.append(z3.And([a[i] < a[i + 1] for i in range(n - 1)]))"),
 ]
+
+MUTANTS += [
+    # ---- Excel cell colours (repair ba5ebb2) ----
+    B("c16-excel-colour-of-variable-length", ["C16"], XL, '        return f"#{hash_str[2:8]:0>6}"', '        return f"#{hash_str[2:8]}"'),
+    T("c16-excel-colour-from-a-hexdigest", ["C16"], XL,
+      '        hash_str = f"{crc32(a_string.encode(\'utf-8\'))}"\n        # always six digits: crc32 of a short text can be a small number\n        return f"#{hash_str[2:8]:0>6}"',
+      '        import hashlib\n        return f"#{hashlib.md5(a_string.encode(\'utf-8\')).hexdigest()[:6]}"'),
+    T("c16-excel-colour-zfill", ["C16"], XL, '        return f"#{hash_str[2:8]:0>6}"', '        return f"#{hash_str[2:8].zfill(6)}"'),
+]
